@@ -71,6 +71,12 @@ def run(ck):
             rets = [p for p in paths if p.outcome == "return"]
             ck.check(bool(rets), "C18.R1", inst + ":evaluates", osite, "on_epoch_end never returns: %s" % [str(p.value)[:80] for p in paths][:2])
             seen_stop = seen_nostop = False
+            # a callable the analyser did not follow ran inside on_epoch_end (a criterion looked up through a table it cannot read):
+            # what was read and decided there is not known - nothing below is judged on such a path
+            blind = [p for p in rets if any(e.kind == "ext-call" for e in p.effects[p.value[4]:])]
+            if blind:
+                ck.undecided("C18.R1", inst + ":criterion followed", osite, "on_epoch_end calls something the analyser does not follow (%s)" % (blind[0].interp.opaque_log[-1][0] if getattr(blind[0].interp, "opaque_log", None) else "?"))
+                continue
             for p in rets:
                 cb, ev, st, ep, n0 = p.value
                 it = p.interp
@@ -192,6 +198,12 @@ def run(ck):
         inst = "refuses %s/%r" % (evk, crit)
         with ck.guard("C18.R3", inst, isite):
             paths = paths_of(prog, lambda it: make_es(it, prog, evk, crit)[0], stubs=STUBS)
+            # a constructor that came back with a criterion the analyser did not follow (a table it cannot read, looked up without an
+            # exception it could see): whether the name was accepted is not known
+            blind = [p for p in paths if p.outcome == "return" and isinstance(p.value, VObj) and isinstance(p.value.inst.attrs.get("deviation"), VUnknown)]
+            if blind:
+                ck.undecided("C18.R3", inst, isite, "the criterion table is not followed: %r" % (blind[0].value.inst.attrs.get("deviation"),))
+                continue
             ck.check(all(p.outcome == "raise" and p.value.exc_name == exc for p in paths), "C18.R3", inst, isite,
                      "constructing EarlyStopping(%s evaluator, criterion=%r) does not raise %s (%s)" % (evk, crit, exc, [str(p.value)[:60] for p in paths]))
     with ck.guard("C18.R3", "refuses non-evaluator"):
@@ -204,7 +216,7 @@ def run(ck):
         with ck.guard("C18.R3", "table/" + crit):
             for p in returning(paths_of(prog, lambda it: make_es(it, prog, "observable", crit)[0], stubs=STUBS), crit):
                 d = p.value.inst.attrs.get("deviation")
-                ck.check(isinstance(d, VFunc) and d.func is not None and d.func.name == meth, "C18.R3", "table/" + crit, isite, "criterion %r is mapped to %s" % (crit, getattr(getattr(d, "func", None), "name", d)))
+                ck.check((isinstance(d, VFunc) and d.func is not None and d.func.name == meth) if not isinstance(d, VUnknown) else None, "C18.R3", "table/" + crit, isite, "criterion %r is mapped to %s" % (crit, getattr(getattr(d, "func", None), "name", d)))
     with ck.guard("C18.R3", "VarianceBasedEarlyStopping"):
         for p in returning(paths_of(prog, lambda it: make_es(it, prog, "observable", None, cls="VarianceBasedEarlyStopping")[0], stubs=STUBS), "vbes"):
             o = p.value
@@ -246,6 +258,7 @@ def _second_run(ck, prog, osite, p_):
                 call(it, ev, "clear_history")
                 ev.inst.attrs["past_values"] = it.new_list(None)
                 n0, c0 = len(it.calls), len(it.conds)
+                it._c18_opaque0 = len(getattr(it, "opaque_log", []))
                 call(it, cb, "on_epoch_end", st, VNum("int", T.sym("epoch2"), nonneg=True))
                 return n0, c0
 
@@ -274,8 +287,10 @@ def _second_run(ck, prog, osite, p_):
                     # the call decided without ever comparing the current history's length with the patience and without reading a
                     # value: for the histories with more than p evaluations that this path admits, nothing was evaluated
                     enough = True
+                # (a callable the analyser did not follow ran in this call: what it read is not known)
+                unfollowed = len(getattr(p.interp, "opaque_log", [])) > getattr(p.interp, "_c18_opaque0", 0)
                 if g2 and g2[0] is True and enough:
-                    ck.check(bool(gv2), "C18.R1", inst + ":the criterion is evaluated on the current history [%s]" % _c(p), osite,
+                    ck.check(bool(gv2) or (None if unfollowed else False), "C18.R1", inst + ":the criterion is evaluated on the current history [%s]" % _c(p), osite,
                              "in the second run, on a multiple of the period with more than p evaluations recorded, on_epoch_end decides without reading the evaluator's current values "
                              "(a deviation kept from the first run decides): path conditions %s" % ", ".join("%s=%s" % (c[1][:40], c[2]) for c in conds2)[:240],
                              key="C18.R1|EarlyStopping|stale deviation")
